@@ -73,7 +73,8 @@ func (r *RoundRobin) ServeHTTP(w http.ResponseWriter, req *http.Request) {
 		}
 
 		if present {
-			newReq.URL = cookieURL
+			// hand a copy downstream, cookieURL is the pool's own object
+			newReq.URL = utils.CopyURL(cookieURL)
 			stuck = true
 		}
 	}
